@@ -21,7 +21,7 @@ rp=$(echo "$chk" | sed -n 's/.*replay=\([^ ]*\).*/\1/p')
 [ -n "$rp" ] && [ -f "$rp" ] && cp "$rp" /verif/seeded/$id/replay_found.json
 git -C /repo worktree remove --force $wt; rm -rf $vc
 cp /tmp/confirm-$id.diff /verif/seeded/$id/patch.diff
-cp $src/demo.py /verif/seeded/$id/demo.py
+cp $src/*.py /verif/seeded/$id/
 python3 - "$src" "$id" "$prop" "$res_clean" "$res_patched" "$base" "$chk" <<'PY'
 import json, sys
 src, sid, prop, rc, rp, base, chk = sys.argv[1:8]
